@@ -7,7 +7,10 @@ property oracle, shrinking.
 A case is a JSON-able dict
 
     {"obj": OPERAND, "prm": OPERAND | {"kind": "scalar", "v": int} | {"kind": "array", "vals": [int, ...]},
-     "labels": {level name: "int" | "rev" | "str" | "float"}}          (optional, default "int")
+     "labels": {level name: "int" | "rev" | "str" | "float" | "interval"},   (optional, default "int")
+     "name_types": {level name: "zero" | "empty" | "float0" | "tuple" | "float" | "bytes"},   (optional: the real
+                   pandas name of the level is 0 / '' / 0.0 / a tuple / a float / bytes instead of the string)
+     "share_index": true}                                               (optional: one Index object for both)
     OPERAND = {"kind": "series" | "frame", "names": [str | None, ...], "keys": [[int, ...], ...], "ncols": int}
 
 Level values are small integer *codes*; on the implementation side a code is turned into a label by the
@@ -63,6 +66,40 @@ def cell(side, i, j, ncols):
     return float((1 if side == "o" else 1001) + i * ncols + j)
 
 
+NAME_TYPES = {        # symbolic level name -> the real pandas level name
+    "zero": lambda sym: 0,            # what df.set_index(0) produces: falsy, not None
+    "empty": lambda sym: "",
+    "float0": lambda sym: 0.0,
+    "tuple": lambda sym: ("t", sym),
+    "float": lambda sym: 2.5 + (ord(sym[0]) % 7),
+    "bytes": lambda sym: sym.encode(),
+}
+
+
+def real_name(case, sym):
+    """The pandas level name of the symbolic name `sym` (the Lean model and the canonical forms use the symbolic
+    names: names are opaque labels for the model).  case["name_types"] maps a symbolic name to a kind of
+    non-string name (falsy but not None: 0, '', 0.0; tuples, floats, bytes); default: the string itself."""
+    if sym is None:
+        return None
+    t = case.get("name_types", {}).get(sym)
+    return sym if t is None else NAME_TYPES[t](sym)
+
+
+def sym_name(case, real):
+    """inverse of real_name on the names of this case; an unknown name comes back as <repr>"""
+    if real is None:
+        return None
+    for op in (case["obj"], case["prm"]):
+        for sym in op.get("names", []):
+            if sym is None:
+                continue
+            r = real_name(case, sym)
+            if type(r) is type(real) and r == real:
+                return sym
+    return f"<{real!r}>"
+
+
 def level_labels(case, side, op, pos):
     name = op["names"][pos]
     if side == "o" and is_record(case):
@@ -88,12 +125,13 @@ def build(case, side, index=None):
     names = op["names"]
     n = len(op["keys"])
     arrays = [level_labels(case, side, op, p) for p in range(len(names))]
+    rnames = [real_name(case, nm) for nm in names]
     if index is not None:
         idx = index
     elif len(names) == 1:
-        idx = pd.Index(arrays[0], name=names[0])
+        idx = pd.Index(arrays[0], name=rnames[0])
     else:
-        idx = pd.MultiIndex.from_arrays(arrays, names=names)
+        idx = pd.MultiIndex.from_arrays(arrays, names=rnames)
     ncols = op["ncols"]
     if kind == "series":
         return pd.Series([cell(side, i, 0, ncols) for i in range(n)], index=idx, name=f"{side}v")
@@ -217,23 +255,31 @@ def decode_level(case, name, values, anon_side_pos=None):
     out = []
     if name is None:
         for v in values:
-            v = int(v)
+            try:
+                v = int(v)
+                assert 10000 <= v < 30000
+            except Exception:       # an unnamed result level that does not hold an unnamed operand level's labels
+                out.append(("?unknown", repr(v)))
+                continue
             side = "o" if v < 20000 else "p"
             pos = (v % 10000) // 1000
             out.append((f"?{side}{pos}", v % 1000))
         return out
     lt = case.get("labels", {}).get(name, "int")
     for v in values:
-        if lt == "int":
-            c = int(v)
-        elif lt == "rev":
-            c = 9 - int(v)
-        elif lt == "str":
-            c = int(str(v)[1:])
-        elif lt == "interval":
-            c = int(round(v.left * 2))
-        else:
-            c = int(round((float(v) + 1.0) * 2))
+        try:
+            if lt == "int":
+                c = int(v)
+            elif lt == "rev":
+                c = 9 - int(v)
+            elif lt == "str":
+                c = int(str(v)[1:])
+            elif lt == "interval":
+                c = int(round(v.left * 2))
+            else:
+                c = int(round((float(v) + 1.0) * 2))
+        except Exception:
+            c = repr(v)
         out.append((name, c))
     return out
 
@@ -247,15 +293,17 @@ def decode_index(case, index):
         # range: resolve it by its position in `total_columns` (object's levels, then the parameter's own)
         (on, _), prm = tables(case)
         total = on + [n for n in prm[1] if n not in on]
-        if len(total) == index.nlevels and all((a is None) == b.startswith("?") and (a is None or a == b)
+        if len(total) == index.nlevels and all((a is None) == b.startswith("?") and (a is None or sym_name(case, a) == b)
                                                for a, b in zip(index.names, total)):
             positional = total
+    tuples = list(index)
     for p in range(index.nlevels):
-        vals = index.get_level_values(p)
+        # by POSITION (get_level_values(0) would return the level NAMED 0 if there is one)
+        vals = [t[p] for t in tuples] if index.nlevels > 1 else tuples
         if positional is not None and index.names[p] is None:
             cols.append([(positional[p], int(v) % 1000) for v in vals])
         else:
-            cols.append(decode_level(case, index.names[p], list(vals)))
+            cols.append(decode_level(case, sym_name(case, index.names[p]), list(vals)))
     return [frozenset(c[i] for c in cols) for i in range(len(index))]
 
 
@@ -326,13 +374,18 @@ def canon_result(case, r):
     if len(set(okeys)) != len(okeys) or len(set(pkeys)) != len(pkeys):
         return "duplicate keys in a result"
     if set(okeys) != set(pkeys):
-        return f"key sets differ: object {sorted(map(sorted, okeys))[:4]} parameter {sorted(map(sorted, pkeys))[:4]}"
+        return f"key sets differ: object {sorted(map(sk, okeys), key=str)[:4]} parameter {sorted(map(sk, pkeys), key=str)[:4]}"
     po = dict(zip(pkeys, prow))
     out = {}
     for k, ro in zip(okeys, orow):
         rp = po[k]
         out[k] = (None if all(v != v for v in ro) else ro, None if all(v != v for v in rp) else rp)
     return out
+
+
+def sk(key):
+    """a key (frozenset of (level, code)) as a sorted list, robust against codes that could not be decoded"""
+    return sorted(key, key=lambda t: (str(t[0]), str(t[1])))
 
 
 def fmt(v):
@@ -347,7 +400,7 @@ def show_table(d, which):
     items = []
     for k, rows in d.items():
         row = rows[which]
-        ks = ",".join(f"{n}={c}" for n, c in sorted(k))
+        ks = ",".join(f"{n}={c}" for n, c in sk(k))
         items.append(f"{ks}>{'nan' if row is None else ','.join(fmt(v) for v in row)}")
     return " ".join(sorted(items))
 
@@ -356,7 +409,7 @@ def result_names(case, r):
     o = r.res_obj
     if is_record(case) and isinstance(o, pd.Series):
         return ""
-    return ",".join("-" if n is None else str(n) for n in o.index.names)
+    return ",".join("-" if n is None else str(sym_name(case, n)) for n in o.index.names)
 
 
 # ------------------------------------------------------------------ protocol
@@ -509,9 +562,29 @@ def gen_table_case(rng, lay=None, present=None, size=None):
     okind = rng.choice(["series", "frame"])
     pkind = rng.choice(["series", "frame"])
     labels = {n: rng.choice(LTYPES) for n in set(on) | set(pn) if n is not None}
-    return {"obj": {"kind": okind, "names": on, "keys": ok, "ncols": 1 if okind == "series" else rng.randint(1, 3)},
+    case = {"obj": {"kind": okind, "names": on, "keys": ok, "ncols": 1 if okind == "series" else rng.randint(1, 3)},
             "prm": {"kind": pkind, "names": pn, "keys": pk, "ncols": 1 if pkind == "series" else rng.randint(1, 2)},
             "labels": labels}
+    if rng.random() < 0.35:
+        case["name_types"] = gen_name_types(rng, sorted(labels))
+    return case
+
+
+def gen_name_types(rng, named):
+    """Real pandas names for some of the symbolic level names: falsy-but-not-None names (0, '', 0.0) and other
+    non-string names.  At most one name of the 0 / 0.0 family (they are equal as names)."""
+    out = {}
+    pool = ["zero", "empty", "float0", "tuple", "float", "zero", "empty"]     # (bytes names: numpy turns a mixed
+    # list of level names into a bytes array inside pandas' to_frame()[names]; not a pyLife matter, left out)
+    for nm in named:
+        if rng.random() < 0.6:
+            t = rng.choice(pool)
+            if t in ("zero", "float0") and any(v in ("zero", "float0") for v in out.values()):
+                continue
+            if t == "empty" and "empty" in out.values():
+                continue
+            out[nm] = t
+    return out
 
 
 def gen_nonpandas_case(rng):
@@ -656,6 +729,33 @@ def contained_multi_missing(case):
     return bool(b - a) if lay == "prm-contained" else bool(a - b)
 
 
+REPAIRED_INT_LEVEL_NAMES = True
+
+
+def int_name_not_first(case):
+    """A level whose NAME is the number 0 / 0.0 and which is not the first level of the object, or not the first
+    level of the parameter (or only the parameter has it): pandas takes such a name for the level NUMBER 0 when it
+    joins (`MultiIndex(names=['x', 0]).join(Index(name='x'))` joins on the level named 0)."""
+    # The defect this predicate singled out (finding int-level-name-as-position) is repaired in /repo (20f8491: every
+    # level name that is not a string gets a temporary unique string).  Such layouts are ordinary cases again: they go
+    # through the correspondence and the normal classification.  The predicate is kept for the record.
+    if REPAIRED_INT_LEVEL_NAMES:
+        return False
+    nt = case.get("name_types", {})
+    zeros = [n for n, t in nt.items() if t in ("zero", "float0")]
+    o, p = case["obj"], case["prm"]
+    if "names" not in p:
+        return False
+    for z in zeros:
+        opos = o["names"].index(z) if z in o["names"] else None
+        ppos = p["names"].index(z) if z in p["names"] else None
+        if opos is None and ppos is None:
+            continue
+        if not (opos == 0 and ppos in (0, None)) and not (is_record(case) and ppos == 0):
+            return True
+    return False
+
+
 def unchanged(before, after):
     """values, index (labels, order) and level names of an operand are what they were"""
     if isinstance(before, (pd.Series, pd.DataFrame)):
@@ -680,7 +780,10 @@ def woehler_case(rng):
     return {"kind": "woehler", "layout": rng.choice(["disjoint", "disjoint", "equal", "contained", "overlapping",
                                                      "record-series", "record-array", "record-scalar"]),
             "n_e": rng.randint(1, 5), "n_s": rng.randint(1, 5), "seed": rng.randrange(1 << 30),
-            "k2": rng.choice(["none", "inf", "value"]), "shuffle": rng.random() < 0.5}
+            "k2": rng.choice(["none", "inf", "value"]), "shuffle": rng.random() < 0.5,
+            "op": rng.choice(["cycles", "cycles", "load"]), "pf": rng.choice([0.5, 0.1, 0.9, 0.025]),
+            "scatter": rng.choice(["none", "TN", "TS", "both", "TN"]),
+            "elem_name": rng.choice(["str", "str", "zero", "empty", "tuple"])}
 
 
 COLLECTIVE_RAISE_VARIANTS = [
@@ -758,11 +861,24 @@ def woehler_oracle(case):
         return (f"the scalar computation of the allowable cycles raised {e}", "consumer-raises")
 
 
+def bit_equal(a, b):
+    a = np.asarray(a, dtype=float)
+    b = np.asarray(b, dtype=float)
+    return a.shape == b.shape and bool(np.all((a == b) | ((a != a) & (b != b))))
+
+
 def _woehler_oracle(case):
+    """Optional fields (defaults reproduce the older corpus cases): "op" cycles | load; "pf" failure probability
+    (the curves are 50 % curves); "scatter" none | TN | TS | both (with scatter and pf != 0.5 the curve moves, so a
+    calculation that writes into the signal shows); "elem_name" str | zero | empty | tuple: the name of the element
+    level (0 and '' are falsy but real names)."""
     import random
     import pylife.materiallaws  # noqa: F401  (registers the accessor)
+    from pylife.materiallaws.woehlercurve import WoehlerCurve
     r = random.Random(case["seed"])
     ne, ns, lay = case["n_e"], case["n_s"], case["layout"]
+    op, pf, scatter = case.get("op", "cycles"), case.get("pf", 0.5), case.get("scatter", "none")
+    EL = {"str": "element", "zero": 0, "empty": "", "tuple": ("element", 1)}[case.get("elem_name", "str")]
     if lay.startswith("record"):
         ne = 1
     curves = []
@@ -777,98 +893,144 @@ def _woehler_oracle(case):
     if case["shuffle"]:
         r.shuffle(elements)
     el_labels = [3 - e for e in elements]      # labels that differ from positions
-    loads_of = lambda: float(r.choice([50.0, 100.0, 180.0, 250.0, 320.0, 400.0, 1000.0]))
-
-    def scalar_cycles(c, ld):
-        try:
-            return float(np.asarray(pd.Series(dict(c)).woehler.cycles(ld)))
-        except Exception as e:
-            raise ScalarPathError(f"{type(e).__name__}: {str(e)[:100]}")
-
-    expected = {}
-    if lay == "record-scalar":
-        ld = loads_of()
-        try:
-            got = pd.Series(dict(curves[0])).woehler.cycles(ld)
-        except Exception as e:
-            raise ScalarPathError(f"{type(e).__name__}: {str(e)[:100]}")
-        expected = {(): scalar_cycles(curves[0], ld)}
-        result = {(): float(np.asarray(got))}
-    elif lay == "record-array":
-        lds = [loads_of() for _ in range(ns)]
-        try:
-            got = np.asarray(pd.Series(dict(curves[0])).woehler.cycles(np.asarray(lds)), dtype=float)
-        except Exception as e:
-            return (f"woehler.cycles(array) raised {type(e).__name__}: {str(e)[:100]}", "consumer-raises")
-        if got.shape != (ns,):
-            return (f"record x array: result shape {got.shape}", "consumer-shape")
-        expected = {(i,): scalar_cycles(curves[0], l) for i, l in enumerate(lds)}
-        result = {(i,): float(v) for i, v in enumerate(got)}
+    if op == "cycles":
+        loads_of = lambda: float(r.choice([50.0, 100.0, 180.0, 250.0, 320.0, 400.0, 1000.0]))
     else:
-        wc = pd.DataFrame(curves, index=pd.Index(el_labels, name="element"))
-        wc0 = wc.copy(deep=True)
-        scen = list(range(ns))
+        loads_of = lambda: float(r.choice([1e3, 2e4, 5e5, 1e6, 2e6, 3e7]))
+    for c in curves:        # after all other draws, so that older cases keep their numbers
+        if scatter in ("TN", "both"):
+            c["TN"] = r.choice([2.0, 3.0, 4.0])
+        if scatter in ("TS", "both"):
+            c["TS"] = r.choice([1.1, 1.25, 1.5])
+
+    def call(signal, arg):
+        return getattr(signal, op)(arg, pf) if (pf != 0.5 or "pf" in case) else getattr(signal, op)(arg)
+
+    def scalar_result(c, ld):
+        try:
+            return float(np.asarray(call(pd.Series(dict(c)).woehler, ld)))
+        except Exception as e:
+            raise ScalarPathError(f"{type(e).__name__}: {str(e)[:100]}")
+
+    what = f"woehler.{op}"
+    scen = list(range(ns))
+    if case["shuffle"] and not lay.startswith("record-a") and lay != "record-scalar":
+        pass
+    # ---- the signal's pandas object and the argument
+    want_names = None
+    if lay == "record-scalar":
+        wcobj = pd.Series(dict(curves[0]))
+        arg = loads_of()
+        expected = {(): scalar_result(curves[0], arg)}
+    elif lay == "record-array":
+        wcobj = pd.Series(dict(curves[0]))
+        lds = [loads_of() for _ in range(ns)]
+        arg = np.asarray(lds)
+        expected = {(i,): scalar_result(curves[0], l) for i, l in enumerate(lds)}
+    else:
+        wc = pd.DataFrame(curves, index=pd.Index(el_labels, name=EL))
         if case["shuffle"]:
             r.shuffle(scen)
         if lay == "record-series":
             wcobj = pd.Series(dict(curves[0]))
-            load = pd.Series([loads_of() for _ in scen], index=pd.Index(scen, name="scenario"))
-            expected = {(s,): scalar_cycles(curves[0], l) for s, l in zip(scen, load)}
+            arg = pd.Series([loads_of() for _ in scen], index=pd.Index(scen, name="scenario"))
+            expected = {(s,): scalar_result(curves[0], l) for s, l in zip(scen, arg)}
+            want_names = ["scenario"]
         elif lay == "disjoint":
             wcobj = wc
-            load = pd.Series([loads_of() for _ in scen], index=pd.Index(scen, name="scenario"))
-            expected = {(e, s): scalar_cycles(c, l) for e, c in zip(el_labels, curves) for s, l in zip(scen, load)}
+            arg = pd.Series([loads_of() for _ in scen], index=pd.Index(scen, name="scenario"))
+            expected = {(e, s): scalar_result(c, l) for e, c in zip(el_labels, curves) for s, l in zip(scen, arg)}
+            want_names = [EL, "scenario"]
         elif lay == "equal":
             wcobj = wc
             order = list(range(ne))
             r.shuffle(order)
-            load = pd.Series([loads_of() for _ in order], index=pd.Index([el_labels[i] for i in order], name="element"))
-            expected = {(el_labels[i],): scalar_cycles(curves[i], l) for i, l in zip(order, load)}
+            arg = pd.Series([loads_of() for _ in order], index=pd.Index([el_labels[i] for i in order], name=EL))
+            expected = {(el_labels[i],): scalar_result(curves[i], l) for i, l in zip(order, arg)}
+            want_names = [EL]
         elif lay == "contained":
             wcobj = wc
             pairs = [(e, s) for e in el_labels for s in scen]
             r.shuffle(pairs)
-            load = pd.Series([loads_of() for _ in pairs], index=pd.MultiIndex.from_tuples(pairs, names=["element", "scenario"]))
-            expected = {(e, s): scalar_cycles(curves[el_labels.index(e)], l) for (e, s), l in zip(pairs, load)}
+            arg = pd.Series([loads_of() for _ in pairs], index=pd.MultiIndex.from_tuples(pairs, names=[EL, "scenario"]))
+            expected = {(e, s): scalar_result(curves[el_labels.index(e)], l) for (e, s), l in zip(pairs, arg)}
+            want_names = [EL, "scenario"]
         else:   # overlapping: curves per (element, temperature), loads per (element, scenario)
             temps = [0, 1][: r.randint(1, 2)]
             rows = [(e, t) for e in el_labels for t in temps]
             cs = [dict(curves[el_labels.index(e)], SD=curves[el_labels.index(e)]["SD"] * (1.0 + 0.5 * t)) for e, t in rows]
-            wcobj = pd.DataFrame(cs, index=pd.MultiIndex.from_tuples(rows, names=["element", "temperature"]))
+            wcobj = pd.DataFrame(cs, index=pd.MultiIndex.from_tuples(rows, names=[EL, "temperature"]))
             pairs = [(e, s) for e in el_labels for s in scen]
             r.shuffle(pairs)
-            load = pd.Series([loads_of() for _ in pairs], index=pd.MultiIndex.from_tuples(pairs, names=["element", "scenario"]))
-            expected = {(e, t, s): scalar_cycles(c, l) for (e, t), c in zip(rows, cs) for (e2, s), l in zip(pairs, load) if e2 == e}
-        load0 = load.copy(deep=True)
-        wcobj0 = wcobj.copy(deep=True)
-        try:
-            with warnings.catch_warnings():
-                warnings.simplefilter("ignore")
-                got = wcobj.woehler.cycles(load)
-        except Exception as e:
-            return (f"woehler.cycles raised {type(e).__name__}: {str(e)[:120]} ({lay}, {ne} curves, {len(load)} loads)", "consumer-raises")
-        u = unchanged(load0, load)
+            arg = pd.Series([loads_of() for _ in pairs], index=pd.MultiIndex.from_tuples(pairs, names=[EL, "scenario"]))
+            expected = {(e, t, s): scalar_result(c, l) for (e, t), c in zip(rows, cs) for (e2, s), l in zip(pairs, arg) if e2 == e}
+            want_names = [EL, "temperature", "scenario"]
+    # ---- evaluate through the (cached) accessor; deep copies of everything before
+    wcobj0, arg0 = copy.deepcopy(wcobj), copy.deepcopy(arg)
+    try:
+        signal = wcobj.woehler
+        sig0 = copy.deepcopy(signal.to_pandas())
+        with warnings.catch_warnings():
+            warnings.simplefilter("ignore")
+            got = call(signal, arg)
+    except Exception as e:
+        return (f"{what} raised {type(e).__name__}: {str(e)[:120]} ({lay}, {ne} curves)", "consumer-raises")
+    # "neither operand is modified": the caller's curve data, the signal's own data, the argument
+    for name, before, after in (("curve data passed in", wcobj0, wcobj), ("signal's own data", sig0, signal.to_pandas()),
+                                ("load / cycles argument", arg0, arg)):
+        u = unchanged(before, after)
         if u:
-            return (f"woehler.cycles modified the load ({u})", "inputs-modified")
+            diff = ""
+            if u == "values" and name != "load / cycles argument":
+                for col in ("SD", "ND", "failure_probability", "k_1", "k_2", "TN", "TS"):
+                    try:
+                        x, y = np.asarray(before[col], dtype=float).ravel(), np.asarray(after[col], dtype=float).ravel()
+                    except Exception:
+                        continue
+                    if not bit_equal(x, y):
+                        diff += f" {col}: {x[:3].tolist()} -> {y[:3].tolist()};"
+            return (f"{what}(…, failure_probability={pf}) modified the {name} ({u}) ({lay}, scatter {scatter}):{diff}",
+                    "consumer-inputs-modified")
+    # ---- the result, key by key, against the scalar computation
+    if want_names is None:
+        g = np.asarray(got, dtype=float)
+        if lay == "record-scalar":
+            result = {(): float(g)} if g.shape == () else None
+        else:
+            result = {(i,): float(v) for i, v in enumerate(g)} if g.shape == (ns,) else None
+        if result is None:
+            return (f"{what}: result shape {g.shape} ({lay})", "consumer-shape")
+    else:
         if not isinstance(got, pd.Series):
-            return (f"woehler.cycles returned {type(got).__name__}", "consumer-shape")
+            return (f"{what} returned {type(got).__name__}", "consumer-shape")
         names = list(got.index.names)
-        want_names = {"record-series": ["scenario"], "disjoint": ["element", "scenario"], "equal": ["element"],
-                      "contained": ["element", "scenario"], "overlapping": ["element", "temperature", "scenario"]}[lay]
-        if sorted(map(str, names)) != sorted(want_names):
-            return (f"result levels {names}, expected {want_names}", "consumer-levels")
+        if sorted(map(repr, names)) != sorted(map(repr, want_names)) or \
+                any(type(a) is not type(b) for a, b in zip(sorted(names, key=repr), sorted(want_names, key=repr))):
+            return (f"{what}: result levels {names}, expected {want_names} ({lay}, {len(got)} rows for {len(expected)} expected)", "consumer-levels")
         perm = [names.index(n) for n in want_names]
         result = {}
         for key, v in zip(got.index, np.asarray(got, dtype=float)):
             key = key if isinstance(key, tuple) else (key,)
             result[tuple(key[i] for i in perm)] = float(v)
         if len(result) != len(got):
-            return ("duplicate keys in the result of woehler.cycles", "consumer-keys")
+            return (f"duplicate keys in the result of {what}", "consumer-keys")
     if set(result) != set(expected):
-        return (f"woehler.cycles keys {sorted(result)[:6]} != expected {sorted(expected)[:6]} ({lay})", "consumer-keys")
+        return (f"{what} keys {sorted(result)[:6]} != expected {sorted(expected)[:6]} ({lay})", "consumer-keys")
     for k, v in expected.items():
         if not core.close(result[k], v, rtol=1e-12):
-            return (f"woehler.cycles at {k}: {result[k]!r} != scalar result {v!r} ({lay})", "consumer-value")
+            return (f"{what} at {k}: {result[k]!r} != scalar result {v!r} ({lay})", "consumer-value")
+    # ---- evaluating again on the same signal object, and on a fresh signal: bit-identical
+    try:
+        with warnings.catch_warnings():
+            warnings.simplefilter("ignore")
+            again = call(signal, arg)
+            fresh = call(WoehlerCurve(copy.deepcopy(wcobj0)), copy.deepcopy(arg0))
+    except Exception as e:
+        return (f"second evaluation of {what} raised {type(e).__name__}: {str(e)[:100]}", "consumer-raises")
+    if not bit_equal(again, got):
+        return (f"{what}: the second evaluation on the same signal differs from the first (pf {pf}, scatter {scatter}, {lay})", "consumer-state")
+    if not bit_equal(fresh, got):
+        return (f"{what}: the result differs from a fresh signal's (pf {pf}, scatter {scatter}, {lay})", "consumer-state")
     return None
 
 
@@ -932,7 +1094,7 @@ class C13(Prop):
         self.stats = {"by_layout": {}, "by_kinds": {}, "sizes": {}, "errors": {}, "label_types": {}, "present": {"yes": 0, "no": 0},
                       "align_shortcut_triggers": 0, "unnamed_level_cases": 0, "equal_length_cases": 0, "consumer_cases": {},
                       "outside_quantifier_cases": 0, "shared_index_object_cases": 0,
-                      "raising_calls_checked_for_unchanged_operands": 0}
+                      "raising_calls_checked_for_unchanged_operands": 0, "level_name_types": {}, "consumer_pf_scatter": {}}
         self.exhaustive = False
         self._cache = {}
 
@@ -950,6 +1112,16 @@ class C13(Prop):
                 yield {"obj": {"kind": "frame", "names": list(names), "keys": keys, "ncols": 1},
                        "prm": {"kind": "series", "names": list(names), "keys": [list(k) for k in keys], "ncols": 1},
                        "labels": {}, "share_index": True}
+        # falsy but real level names (0 as from df.set_index(0), ''), shared / disjoint / contained / overlapping
+        for nt in ({"z": "zero"}, {"z": "empty"}, {"x": "zero", "z": "empty"}):
+            for on, pn in ((["z"], ["z"]), (["x"], ["z"]), (["x", "z"], ["z"]), (["z"], ["x", "z"]), (["x", "z"], ["y", "z"])):
+                for ok in ordered_key_lists(len(on), 2, 2):
+                    for pk in ordered_key_lists(len(pn), 2, 2):
+                        case = {"obj": {"kind": "frame", "names": on, "keys": ok, "ncols": 1},
+                                "prm": {"kind": "series", "names": pn, "keys": pk, "ncols": 1}, "labels": {}, "name_types": nt}
+                        if layout(case) == "overlapping" and not shared_keys_present(case):
+                            continue
+                        yield case
         for v in range(len(COLLECTIVE_RAISE_VARIANTS)):
             for op in ("scale", "shift"):
                 yield {"kind": "collective-raise", "variant": v, "op": op}
@@ -976,8 +1148,8 @@ class C13(Prop):
 
     # -------------------------------------------------------------- correspondence
     def model_lines(self, case):
-        if case.get("kind") in CONSUMER_KINDS:
-            return []
+        if case.get("kind") in CONSUMER_KINDS or int_name_not_first(case):
+            return []       # (open finding int-level-name-as-position: pandas' behaviour there is not modelled; oracle only)
         t = spec_tokens(case)
         return ["bc_obj " + t, "bc_prm " + t, "bc_names " + t]
 
@@ -993,6 +1165,9 @@ class C13(Prop):
 
     def impl_lines(self, case):
         if case.get("kind") in CONSUMER_KINDS:
+            return []
+        if int_name_not_first(case):
+            self.stats["int_name_not_first_cases_oracle_only"] = self.stats.get("int_name_not_first_cases_oracle_only", 0) + 1
             return []
         self._count(case)
         r = self._run(case)
@@ -1024,6 +1199,8 @@ class C13(Prop):
                 s["unnamed_level_cases"] += 1
         if align_shortcut(case):
             s["align_shortcut_triggers"] += 1
+        for t in case.get("name_types", {}).values():
+            s["level_name_types"][t] = s["level_name_types"].get(t, 0) + 1
         if case.get("outside"):
             s["outside_quantifier_cases"] += 1
 
@@ -1039,6 +1216,8 @@ class C13(Prop):
         if case.get("kind") == "woehler":
             lay = case["layout"]
             self.stats["consumer_cases"][lay] = self.stats["consumer_cases"].get(lay, 0) + 1
+            k = f"{case.get('op', 'cycles')} pf={case.get('pf', 0.5)} scatter={case.get('scatter', 'none')} elem={case.get('elem_name', 'str')}"
+            self.stats["consumer_pf_scatter"][k] = self.stats["consumer_pf_scatter"].get(k, 0) + 1
             return woehler_oracle(case)
         if case.get("kind") == "haigh":
             self.stats["consumer_cases"]["haigh"] = self.stats["consumer_cases"].get("haigh", 0) + 1
@@ -1047,6 +1226,8 @@ class C13(Prop):
             self.stats["consumer_cases"]["collective-raise"] = self.stats["consumer_cases"].get("collective-raise", 0) + 1
             return collective_raise_oracle(case)
         res = self._oracle_table(case)
+        if res is not None and not res[1].startswith("inputs-modified") and int_name_not_first(case):
+            return ("a level NAMED 0 that is not the first level is taken for level number 0: " + res[0], "int-level-name-as-position")
         if res is not None and case.get("share_index") and not res[1].startswith("inputs-modified"):
             distinct = {k: v for k, v in case.items() if k != "share_index"}
             if self._oracle_table(distinct) is None:
@@ -1089,6 +1270,17 @@ class C13(Prop):
                 return (f"the returned objects have different index levels: object {list(o.index.names)}, parameter {list(p.index.names)} ({layout(case)})", klass_mis)
             if len(o.index) != len(p.index) or list(o.index) != list(p.index):
                 return (f"the returned objects have different indices: object {list(o.index)[:5]}, parameter {list(p.index)[:5]} ({layout(case)})", klass_mis)
+        # the result's level names are the operands' level names (0 and '' are names, only None is "unnamed")
+        if case["prm"]["kind"] in ("series", "frame") and isinstance(o, (pd.Series, pd.DataFrame)):
+            want = [] if is_record(case) else [real_name(case, n) for n in case["obj"]["names"]]
+            want = want + [real_name(case, n) for n in case["prm"]["names"]]
+            wantset = {(type(n).__name__, repr(n)) for n in want if n is not None}
+            gotset = {(type(n).__name__, repr(n)) for n in o.index.names if n is not None}
+            n_none = sum(1 for n in want if n is None)
+            if wantset != gotset or sum(1 for n in o.index.names if n is None) != n_none:
+                return (f"result level names {list(o.index.names)} ({len(o)} rows) are not the operands' level names "
+                        f"{[real_name(case, n) for n in case['obj']['names']]} and {[real_name(case, n) for n in case['prm']['names']]} ({layout(case)})",
+                        klass_mis if shortcut else "level-names")
         c = canon_result(case, r)
         if isinstance(c, str):
             return (f"the returned objects are not aligned: {c} ({layout(case)})", klass_mis)
@@ -1102,15 +1294,15 @@ class C13(Prop):
                 ko = frozenset((n, v) for n, v in key if n in on)
                 kp = frozenset((n, v) for n, v in key if n in pn)
                 if ro != od.get(ko):
-                    return (f"row {sorted(key)}: object cells {ro}, the original holds {od.get(ko)} at {sorted(ko)}", klass_mis if shortcut else "wrong-value")
+                    return (f"row {sk(key)}: object cells {ro}, the original holds {od.get(ko)} at {sk(ko)}", klass_mis if shortcut else "wrong-value")
                 if rp != pd_.get(kp):
-                    return (f"row {sorted(key)}: parameter cells {rp}, the original holds {pd_.get(kp)} at {sorted(kp)}", klass_mis if shortcut else "wrong-value")
+                    return (f"row {sk(key)}: parameter cells {rp}, the original holds {pd_.get(kp)} at {sk(kp)}", klass_mis if shortcut else "wrong-value")
                 if {n for n, _ in key} != set(on) | set(pn):
-                    return (f"row {sorted(key)}: levels are not the union of the operands' levels", "levels")
+                    return (f"row {sk(key)}: levels are not the union of the operands' levels", "levels")
         # nothing lost, nothing invented: the relation the documentation describes (cross join: |obj|*|prm| rows)
         if c != ref:
-            missing = [sorted(k) for k in ref if k not in c][:3]
-            extra = [sorted(k) for k in c if k not in ref][:3]
+            missing = [sk(k) for k in ref if k not in c][:3]
+            extra = [sk(k) for k in c if k not in ref][:3]
             return (f"result differs from the relational join: missing rows {missing}, extra rows {extra}, "
                     f"{len(c)} rows instead of {len(ref)} ({layout(case)})", klass_mis if shortcut else "join")
         return None
@@ -1154,6 +1346,11 @@ class C13(Prop):
                     cand[side]["vals"] = op["vals"][:-1]
                     if still_fails(cand):
                         cur, changed = cand, True
+            for nm in list(cur.get("name_types", {})):
+                cand = copy.deepcopy(cur)
+                del cand["name_types"][nm]
+                if still_fails(cand):
+                    cur, changed = cand, True
             if cur.get("labels") and any(v != "int" for v in cur["labels"].values()):
                 cand = copy.deepcopy(cur)
                 cand["labels"] = {k: "int" for k in cur["labels"]}
